@@ -3,6 +3,7 @@ package nitrocheck
 import (
 	"fmt"
 	"os"
+	"sort"
 	"strconv"
 
 	"github.com/couchbase/nitro"
@@ -131,4 +132,33 @@ func (w *World) drawOpenSnap(t *rapid.T) int {
 		t.Skip("no open snapshot")
 	}
 	return open[rapid.IntRange(0, len(open)-1).Draw(t, "snap")]
+}
+
+func (w *World) drawClosableSnap(t *rapid.T) int {
+	open := w.ClosableSnaps()
+	if len(open) == 0 {
+		t.Skip("no closable snapshot")
+	}
+	return open[rapid.IntRange(0, len(open)-1).Draw(t, "snap")]
+}
+
+func sortStrings(s []string) { sort.Strings(s) }
+
+// runSkippable runs an action; returns false if it skipped (t.Skip) before drawing or acting.
+func runSkippable(t *rapid.T, f func(*rapid.T)) (ran bool) {
+	defer func() {
+		if r := recover(); r != nil {
+			if isSkip(r) {
+				ran = false
+				return
+			}
+			panic(r)
+		}
+	}()
+	f(t)
+	return true
+}
+
+func isSkip(r any) bool {
+	return fmt.Sprintf("%T", r) == "rapid.invalidData"
 }
